@@ -73,9 +73,11 @@ Definition init (g : cfg) (c h : N) : state :=
 (* ---- environment of one call ------------------------------------------------------------------- *)
 
 (* cut = Some k: the process dies when k database writes of this call have been applied (k = 0:
-   at the first write attempt).  rfail: reading a protection record fails during this call. *)
-Record env := { cut : option N; rfail : bool }.
-Definition env0 : env := {| cut := None; rfail := false |}.
+   at the first write attempt).  rfail: reading a protection record fails during this call.
+   wfail: the database refuses every write of this call (Set returns an error, nothing is stored, the
+   process lives on); considered for the calls whose only state is the database (sign, reactivate). *)
+Record env := { cut : option N; rfail : bool; wfail : bool }.
+Definition env0 : env := {| cut := None; rfail := false; wfail := false |}.
 
 Inductive err :=
 | ENoAccount   (* wallet.AccountByPublicKey failed *)
@@ -84,7 +86,8 @@ Inductive err :=
 | ENoRecord    (* found = false *)
 | ENilRecord   (* found = true but no data: "highest attestation data is nil" *)
 | ESlashable   (* HighestAttestationVote / HighestProposalVote *)
-| EZeroSlot.   (* proposal slot 0 *)
+| EZeroSlot    (* proposal slot 0 *)
+| EWriteErr.   (* the protection record could not be written *)
 
 Inductive sg :=
 | SAtt (source target : N)
@@ -283,11 +286,23 @@ Definition plan (x : state) (o : op) : list write * outcome :=
       match check_prop e s sl with Some r => ([], Refused r) | None => ([], Done) end
   end.
 
+Definition op_wfail (o : op) : bool :=
+  match o with
+  | OReact e | OSignAtt _ _ e | OSignBlk _ e => wfail e
+  | _ => false
+  end.
+
+(* For the database a refused first write is what a death at the first write attempt is: nothing of
+   the call is stored.  The difference is in the result: the call returns an error ([relabel]). *)
 Definition op_cut (o : op) : option N :=
   match o with
-  | OAdd e | ORemove e | OReact e | OSignAtt _ _ e | OSignBlk _ e => cut e
+  | OAdd e | ORemove e => cut e
+  | OReact e | OSignAtt _ _ e | OSignBlk _ e => if wfail e then Some 0 else cut e
   | _ => None
   end.
+
+Definition relabel (wf : bool) (out : outcome) : outcome :=
+  if wf then match out with Crashed => Refused EWriteErr | _ => out end else out.
 
 (* What the harness compares: the call's result and the persisted state after it. *)
 Record obs := { o_out : outcome; o_store : store }.
@@ -314,7 +329,7 @@ Definition step (x : state) (o : op) : state * obs :=
       (with_store x s', {| o_out := Done; o_store := s' |})
   | _ =>
       let '(s', out) := exec (st x) (op_cut o) (plan x o) in
-      (with_store x s', {| o_out := out; o_store := s' |})
+      (with_store x s', {| o_out := relabel (op_wfail o) out; o_store := s' |})
   end.
 
 Fixpoint run (x : state) (ops : list op) : state * list obs :=
